@@ -91,7 +91,11 @@ impl<T: Types> RaftLogWriter<T> for RaftLog<T> {
         let log_id = if index == T::next_log_index(purged) {
             purged.cloned()
         } else {
-            let log_id = self.get_log_id(index - 1)?;
+            let prev = index
+                .checked_sub(1)
+                .ok_or_else(|| LogIndexNotFound::new(index))
+                .map_err(RaftLogStateError::<T>::from)?;
+            let log_id = self.get_log_id(prev)?;
             Some(log_id)
         };
 
@@ -382,6 +386,8 @@ impl<T: Types> RaftLog<T> {
         to: u64,
     ) -> impl Iterator<Item = Result<(T::LogId, T::LogPayload), io::Error>> + '_
     {
+        // `BTreeMap::range` panics if start > end; `from > to` is an empty range.
+        let to = to.max(from);
         self.state_machine.log.range(from..to).map(|(_, log_data)| {
             let log_id = log_data.log_id.clone();
 
